@@ -482,3 +482,89 @@ func walkParts(parts []TPart, f func(Node)) {
 		}
 	}
 }
+
+// ---------------------------------------------------------------------------
+// bodies
+
+// Body is a sequence of attributes and blocks in source order.
+type Body struct{ Items []Item }
+
+// Item is Attr or Block.
+type Item interface{ item() }
+
+// Attr is `name = expr`.
+type Attr struct {
+	Name string
+	Expr Node
+}
+
+// Label is a block label; Bare labels are written as identifiers.
+type Label struct {
+	Text string
+	Bare bool
+}
+
+// Block is `type labels... { body }`.
+type Block struct {
+	Type    string
+	Labels  []Label
+	Body    *Body
+	OneLine bool // written as a one-line block (body has at most one attribute and no blocks)
+}
+
+func (Attr) item()  {}
+func (Block) item() {}
+
+// Attrs returns the attributes of a body in order.
+func (b *Body) Attrs() []Attr {
+	var out []Attr
+	for _, it := range b.Items {
+		if a, ok := it.(Attr); ok {
+			out = append(out, a)
+		}
+	}
+	return out
+}
+
+// Blocks returns the blocks of a body in order.
+func (b *Body) Blocks() []Block {
+	var out []Block
+	for _, it := range b.Items {
+		if bl, ok := it.(Block); ok {
+			out = append(out, bl)
+		}
+	}
+	return out
+}
+
+// DumpBody is a canonical dump of a body tree.
+func DumpBody(b *Body) string {
+	var sb strings.Builder
+	dumpBody(&sb, b)
+	return sb.String()
+}
+
+func dumpBody(sb *strings.Builder, b *Body) {
+	sb.WriteString("{")
+	for i, it := range b.Items {
+		if i > 0 {
+			sb.WriteString("; ")
+		}
+		switch x := it.(type) {
+		case Attr:
+			sb.WriteString(x.Name + "=")
+			dump(sb, x.Expr)
+		case Block:
+			sb.WriteString(x.Type)
+			for _, l := range x.Labels {
+				fmt.Fprintf(sb, " %q", l.Text)
+			}
+			if x.OneLine {
+				sb.WriteString(" 1L")
+			}
+			sb.WriteString(" ")
+			dumpBody(sb, x.Body)
+		}
+	}
+	sb.WriteString("}")
+}
